@@ -171,10 +171,10 @@ class BatchResult(Generic[R], BatchResultProtocol[R]):  # noqa: PYI059
                     completion_config.tolerated_failure_percentage is not None
                     and total_count > 0
                 ):
-                    failure_percentage = (failure_count / total_count) * 100
+                    # compare without dividing: (7 / 100) * 100 is 7.000000000000001 in floating point
                     if (
-                        failure_percentage
-                        > completion_config.tolerated_failure_percentage
+                        failure_count * 100
+                        > completion_config.tolerated_failure_percentage * total_count
                     ):
                         return CompletionReason.FAILURE_TOLERANCE_EXCEEDED
 
@@ -473,8 +473,11 @@ class ExecutionCounters:
 
             # Check failure percentage tolerance
             if self.tolerated_failure_percentage is not None and self.total_tasks > 0:
-                failure_percentage = (self.failure_count / self.total_tasks) * 100
-                if failure_percentage > self.tolerated_failure_percentage:
+                # compare without dividing: (7 / 100) * 100 is 7.000000000000001 in floating point
+                if (
+                    self.failure_count * 100
+                    > self.tolerated_failure_percentage * self.total_tasks
+                ):
                     return False
 
             return True
@@ -533,8 +536,8 @@ class ExecutionCounters:
 
         # Failure percentage condition
         if tolerated_percentage is not None and self.total_tasks > 0:
-            failure_percentage = (failure_count / self.total_tasks) * 100
-            if failure_percentage > tolerated_percentage:
+            # compare without dividing: (7 / 100) * 100 is 7.000000000000001 in floating point
+            if failure_count * 100 > tolerated_percentage * self.total_tasks:
                 return True
 
         return False
